@@ -326,7 +326,9 @@ def step (s : S) (line : String) : S × String :=
   else if op == "sqroundtrip" then
     let txt := argBytes ws "hex"
     if cstr txt ≠ txt then (s, "bad-op") else
-    (s, Sq.roundtripLine a txt ((argNat? ws "rc").getD 0 ≠ 0) hx)
+    let ss := (argHex? ws "ss").map fun b => b.map (·.toNat)
+    if (match ss with | some v => v.length ≠ txt.length || v.contains 0 | none => false) then (s, "bad-op") else
+    (s, Sq.roundtripLine a txt ((argNat? ws "rc").getD 0 ≠ 0) hx ss ((argNat? ws "retry").getD 0 ≠ 0))
   else if op == "sqrevtext" then
     let txt := argBytes ws "hex"
     if cstr txt ≠ txt then (s, "bad-op") else
